@@ -315,6 +315,7 @@ pub struct Contract {
     pub first_video_pts: Option<f64>,
     pub last_video_pts: Option<f64>,
     pub last_video_dts_tick: Option<u64>,
+    pub last_video_dts_secs: Option<f64>,
     pub last_audio_pts: Option<f64>,
     pub last_audio_tick: Option<u64>,
     pub cursor_video: f64,
@@ -342,6 +343,7 @@ impl Contract {
             first_video_pts: None,
             last_video_pts: None,
             last_video_dts_tick: None,
+            last_video_dts_secs: None,
             last_audio_pts: None,
             last_audio_tick: None,
             cursor_video: 0.0,
@@ -511,6 +513,7 @@ impl Contract {
         }
         self.last_video_pts = Some(pts);
         self.last_video_dts_tick = Some(tick(dts));
+        self.last_video_dts_secs = Some(dts);
         self.accepted_video += 1;
     }
     fn accept_audio(&mut self, pts: f64) {
